@@ -21,6 +21,22 @@ FW_TRUSTED = ["go/parser, go/types, golang.org/x/tools/go/packages (loading of t
               "harness/internal/fw: corpus loader, warning projection (offset/text/fix), structural fingerprint (unit-tested in fingerprint_test.go)"]
 
 
+def c02(tier):
+    vlib.standard(
+        "C02", tier, "c02", [f for f in ["Properties_C02.v", "Proofs_Determ.v", "MapRangeSites.v"] if _exists(f)],
+        assume=["nondeterminism inside third-party engines (ruleguard, gogrep) is covered by the repetition oracle only",
+                "Go's per-range randomisation of map iteration is the adversary of the in-process stream; hash seeds differ between processes for the CLI stream"],
+        trusted=FW_TRUSTED + ["translator vh gen maprange (go/ast+go/types over /repo/linter, /repo/checkers, /repo/cmd -> gen/MapRangeSites.v)"])
+
+
+def c13(tier):
+    vlib.standard(
+        "C13", tier, "c13", [f for f in ["Properties_C13.v", "Proofs_Walk.v"] if _exists(f)],
+        assume=["exempt by documented subject (file-level order): dupImport, commentedOutImport, typeDefFirst, codegenComment, importShadow",
+                "transformed examples are accepted only when they type-check as well as the original package"],
+        trusted=FW_TRUSTED)
+
+
 def c03(tier):
     vlib.standard(
         "C03", tier, "c03", [f for f in ["Properties_C03.v", "Proofs_History.v", "StateInventory.v"] if _exists(f)],
@@ -42,7 +58,7 @@ def _exists(f):
     return os.path.exists(os.path.join(vlib.COQ, "theories", f)) or os.path.exists(os.path.join(vlib.COQ, "gen", f))
 
 
-CHECKS = {"C03": c03, "C05": c05, "C06": c06}
+CHECKS = {"C02": c02, "C03": c03, "C05": c05, "C06": c06, "C13": c13}
 
 
 def run(prop, tier):
